@@ -91,6 +91,27 @@ def tiny_eigenvalue_cases(col):
         col.add(bad)
 
 
+def high_dimension_case():
+    """dimension 50, rank 49 (first-order random-walk penalty) with variance 50 and 0.02: the pseudo-determinant itself (1e-82 / 1e+84) is far outside the float32
+    range although every eigenvalue is ordinary - all four constructors still agree with the float64 reference"""
+    m = 50
+    D = np.diff(np.eye(m), axis=0)
+    K = D.T @ D
+    lam, Q = np.linalg.eigh(K)
+    lam[0] = 0.0
+    x = np.linspace(-1.0, 1.0, m) ** 2
+    Kj, xj = jnp.asarray(K, jnp.float32), jnp.asarray(x, jnp.float32)
+    for var in (50.0, 0.02):
+        want = ref_logpdf(x, np.zeros(m), lam / var, Q, m - 1)
+        mks = {"prec": lambda: MVND(jnp.zeros(m), Kj / var), "prec+rank": lambda: MVND(jnp.zeros(m), Kj / var, rank=m - 1),
+               "from_penalty": lambda: MVND.from_penalty(jnp.zeros(m), jnp.float32(var), Kj), "from_penalty_smooth": lambda: MVND.from_penalty_smooth(jnp.zeros(m), jnp.float32(1.0 / var), Kj)}
+        for name, mk in mks.items():
+            got = float(mk().log_prob(xj))
+            if not np.isclose(got, want, rtol=2e-3, atol=0.2):
+                return {"sig": "native::mvn_degen::high_dimension", "what": f"{name}, dimension {m}, rank {m - 1}, variance {var}: log_prob = {got}, float64 reference {want:.4f}", "input": {"dim": m, "var": var}}
+    return None
+
+
 def user_tolerance_case():
     """a tolerance chosen by the user is the threshold that is applied: RW1 penalty scaled by 1e-8 (genuine eigenvalues 4e-9..4e-8, numerical noise
     of the zero eigenvalue ~1e-15) with tol=1e-12 and neither rank nor log_pdet supplied; and tol=0.5 on the unscaled penalty (eigenvalue 0.38 excluded)"""
@@ -249,6 +270,7 @@ def bounded(tier, seed):
     mvn_cases(col, rng, n)
     tiny_eigenvalue_cases(col)
     col.add(user_tolerance_case())
+    col.add(high_dimension_case())
     batch_cases(col, rng)
     try:
         sampling_factor_constructor_cases(col, rng)
@@ -263,7 +285,7 @@ def bounded(tier, seed):
     return {
         "evaluations": col.evals, "distinct_nontrivial": col.evals,
         "rule": (f"BOUNDED: {n} seeded degenerate-MVN cases (dim 1-4, rank 0..dim, variance in {{0.37,1,5}}) x 7 constructor variants against an eigendecomposition "
-                 "reference incl. null-space invariance; RW1 penalty with eigenvalues scaled by 1e7 / 1e-7 and supplied rank; user tolerances 1e-12 / 0.5 with derived rank and log_pdet; a (2,2) batch; the sampling factor S (S S' = pseudo-inverse, columns = rank, samples in the range space) for well- and ill-conditioned precisions, and for rotated (non-diagonal) full-rank / rank-deficient precisions through 6 constructor variants (supplied rank as python int, numpy integer, with log_pdet) incl. the empirical covariance of 4000 draws; Gaussian copula also for batches of dependences with 1-3 batch axes (non-symmetric, non-square); algebraic sigmoid on a 9-point grid and in the tails (|x| up to 9999, |y| up to 0.9999, closed-form float64 reference, eager and jit) "
+                 "reference incl. null-space invariance; RW1 penalty with eigenvalues scaled by 1e7 / 1e-7 and supplied rank; user tolerances 1e-12 / 0.5 with derived rank and log_pdet; a 50-dimensional rank-49 penalty with variance 50 / 0.02 (pseudo-determinant outside the float32 range) through four constructors; a (2,2) batch; the sampling factor S (S S' = pseudo-inverse, columns = rank, samples in the range space) for well- and ill-conditioned precisions, and for rotated (non-diagonal) full-rank / rank-deficient precisions through 6 constructor variants (supplied rank as python int, numpy integer, with log_pdet) incl. the empirical covariance of 4000 draws; Gaussian copula also for batches of dependences with 1-3 batch axes (non-symmetric, non-square); algebraic sigmoid on a 9-point grid and in the tails (|x| up to 9999, |y| up to 0.9999, closed-form float64 reference, eager and jit) "
                  "(inverse, |forward| <= 1, ldj = log of jax.grad); Gaussian copula on 7 dependences in (-1,1) x 8 points (incl. coordinates 1e-8, 1e-10 and the largest float32 below 1) x validate_args in {False, True} against the closed form, "
                  f"plus a matrix batch. Sampling-distribution clauses are not checked (not applicable to this family). seed={seed}"),
         "samples": [{"dim": 4, "rank": 2, "var": 0.37}, {"dependence": -0.5, "validate_args": True}],
